@@ -221,7 +221,7 @@ func workerMain() {
 		t0 := time.Now()
 		go func() {
 			switch rq.Kind {
-			case "live":
+			case "live", "liveseq":
 				done <- serveOne(ls.Srv.LiveRouter, rq, false)
 			case "recv":
 				done <- serveOne(recv.Handler(), rq, false)
